@@ -18,9 +18,9 @@ def run(tier):
         Obligation('py_expr', 'harness/c13.py', 'h_py_expr', timeout=300, partitions=[[k] for k in range(12)],
                    what='F, Value, combined expressions, Deferrable, UniqueConstraint, Index with condition: rendered text evaluates to an object with equal deconstruction; bare and inside the dict/list shapes ChangeMeta uses',
                    bounds='12 kinds (incl. nested combined expressions needing grouping, sets) x pools x 4 field names x 3 wrappers', functions=SER),
-        Obligation('content', 'harness/c13.py', 'h_content', timeout=(400 if tier == 'quick' else 900), partitions=[[k] for k in range(16)],
+        Obligation('content', 'harness/c13.py', 'h_content', timeout=(400 if tier == 'quick' else 900), partitions=[[k] for k in range(18)],
                    what='get_evolution_content() text exec()s in a fresh namespace and defines MUTATIONS of equal type and equal re-rendered hint; single mutations also have equal simulate() effect on a base signature',
-                   bounds='16 mutation shapes (AddField x4, ChangeField x3, DeleteField, RenameField, ChangeMeta x5, RenameModel, DeleteModel) alone and in all ordered pairs, string/int payloads from the pools',
+                   bounds='18 mutation shapes (AddField x5 and ChangeField x4 incl. project-defined field classes from two modules, one under a path containing .db.models; formerly listed: AddField x4, ChangeField x3, DeleteField, RenameField, ChangeMeta x5, RenameModel, DeleteModel) alone and in all ordered pairs, string/int payloads from the pools',
                    functions=['evolve/evolve_app_task.py EvolveAppTask.get_evolution_content', 'mutations/*.py get_hint_params, generate_hint, __str__'] + SER),
         Obligation('placeholder', 'harness/c13.py', 'h_placeholder', timeout=120,
                    what='NullFieldInitialCallback renders as <<USER VALUE REQUIRED>>, the text does not compile, the placeholder object raises EvolutionException when called',
